@@ -13,8 +13,18 @@
 (*                 further result objects the continuation may hand back   *)
 (*                 (a follow-up operation); the environment completes      *)
 (*                 them, or not, at any time before / after call and run.  *)
-(*   New           the combinator was called (inputs completed so far are  *)
-(*                 the "already complete at call time" subset)             *)
+(*   New           the combinator is being called (inputs completed so far *)
+(*                 are the "already complete at call time" subset); logged *)
+(*                 immediately before the call, so whatever the call does  *)
+(*                 synchronously (e.g. run the continuation of an already  *)
+(*                 complete source) comes after it                         *)
+(*   Esc(r)        an exception (id r.exn, -2 = not a scripted one) came   *)
+(*                 out of a call INTO the code under test: r.at = "new":   *)
+(*                 out of the combinator call itself, which therefore      *)
+(*                 handed out no result (no Obs follows); r.at = "init" /  *)
+(*                 "set" / "obs": out of constructing a result, set /      *)
+(*                 set_exception of an input, reading the result (the      *)
+(*                 driver then ends the run: nothing more can be judged).  *)
 (*   Run(r)        ContinueWith: the continuation ran (r.ready = was the   *)
 (*                 source ready, r.out/r.v = what it returned or raised;   *)
 (*                 out = "ar": it returned the result OBJECT number v      *)
@@ -68,6 +78,19 @@
 (*                its value; result = outcome of the function (unwrapped   *)
 (*                when it returns a result); a failed source gives a       *)
 (*                failed result without applying the function.             *)
+(* Escapes (Esc): the statement says ContinueWith "captures its result or   *)
+(* exception": once the continuation has run, what it returned or raised   *)
+(* must be in the result ContinueWith hands out, so an exception coming    *)
+(* out of the ContinueWith call itself after the continuation ran is       *)
+(* C17.continueWith (any kind of exception; no result exists that could    *)
+(* hold the outcome).  WhenAll / WhenAny / Unwrap: flagged only where the  *)
+(* statement demands success at that very point (every input already       *)
+(* succeeded / some input already succeeded / the chain already resolves   *)
+(* to a plain value): a call that raises does not "succeed with" / "yield" *)
+(* anything.  Where a failure or a pending result is due, and for Map      *)
+(* (the statement only says which values its function is applied to), and  *)
+(* for escapes from init / set / read, the statement is silent: the event  *)
+(* is accepted unjudged ("ok") -- not a violation, not a crash.            *)
 (* Domain: WhenAll / WhenAny with at least one input.                      *)
 (***************************************************************************)
 EXTENDS Integers, Sequences, FiniteSets, TLC
@@ -76,9 +99,10 @@ VARIABLES acomb,   \* "WhenAll" | "WhenAny" | "Unwrap" | "ContinueWith" | "Map"
           an,      \* number of inputs / chain levels
           adone,   \* completions in order: Seq([i, k, v])
           acall,   \* Len(adone) at the time of the call, -1 before the call
-          aruns    \* continuation runs / function applications: Seq([out, v])
+          aruns,   \* continuation runs / function applications: Seq([out, v])
+          aesc     \* TRUE: the combinator call raised, no result was handed out
 
-avars == <<acomb, an, adone, acall, aruns>>
+avars == <<acomb, an, adone, acall, aruns, aesc>>
 
 Combs == {"WhenAll", "WhenAny", "Unwrap", "ContinueWith", "Map"}
 
@@ -88,6 +112,7 @@ AInit(comb, n) ==
   /\ adone = <<>>
   /\ acall = -1
   /\ aruns = <<>>
+  /\ aesc = FALSE
 
 Called == acall >= 0
 DoneIdx == {adone[j].i : j \in DOMAIN adone}
@@ -107,7 +132,7 @@ SetCheck(i, k, v) ==
 
 SetUpd(i, k, v) ==
   /\ adone' = Append(adone, [i |-> i, k |-> k, v |-> v])
-  /\ UNCHANGED <<acomb, an, acall, aruns>>
+  /\ UNCHANGED <<acomb, an, acall, aruns, aesc>>
 
 NewCheck ==
   IF Called THEN "harness.newOnce"
@@ -115,7 +140,7 @@ NewCheck ==
   ELSE IF an < 1 THEN "harness.domain"
   ELSE "ok"
 
-NewUpd == acall' = Len(adone) /\ UNCHANGED <<acomb, an, adone, aruns>>
+NewUpd == acall' = Len(adone) /\ UNCHANGED <<acomb, an, adone, aruns, aesc>>
 
 \* ContinueWith: r = [ready, out, v];  Map: r = [arg, out, v]
 RunCheck(r) ==
@@ -130,7 +155,7 @@ RunCheck(r) ==
 
 RunUpd(r) ==
   /\ aruns' = Append(aruns, [out |-> r.out, v |-> r.v])
-  /\ UNCHANGED <<acomb, an, adone, acall>>
+  /\ UNCHANGED <<acomb, an, adone, acall, aesc>>
 
 \* ---------------------------------------------------------------- observation
 Pending(o) == ~o.ready
@@ -194,6 +219,7 @@ MapOk(o) ==
 
 ObsCheck(o) ==
   IF ~Called THEN "harness.obsBeforeNew"
+  ELSE IF aesc THEN "harness.obsNoResult"
   ELSE CASE acomb = "WhenAll"      -> IF WhenAllOk(o) THEN "ok" ELSE "C17.whenAll"
          [] acomb = "WhenAny"      -> IF WhenAnyOk(o) THEN "ok" ELSE "C17.whenAny"
          [] acomb = "Unwrap"       -> IF UnwrapOk(o) THEN "ok" ELSE "C17.unwrap"
@@ -203,14 +229,38 @@ ObsCheck(o) ==
 
 ObsUpd(o) == UNCHANGED avars
 
+\* ---------------------------------------------------------------- escaped exceptions
+\* r = [at, exn].  Evaluated, like every check, in the state before the event: for at = "new" that
+\* is the state after New and after whatever ran inside the call.
+EscCheck(r) ==
+  IF r.at \notin {"init", "set", "new", "obs"} THEN "harness.escAt"
+  ELSE IF r.at # "new" THEN "ok"                      \* statement silent: unjudged
+  ELSE IF ~Called \/ aesc THEN "harness.escOutsideCall"
+  ELSE CASE acomb = "ContinueWith" ->
+              \* the continuation ran (inside this call or before): its result / exception had to be
+              \* captured in the result this call hands out -- it hands out none
+              IF Len(aruns) >= 1 THEN "C17.continueWith" ELSE "ok"
+         [] acomb = "WhenAll" ->
+              IF FailJ = {} /\ Len(adone) = an THEN "C17.whenAll" ELSE "ok"
+         [] acomb = "WhenAny" ->
+              IF OkJ # {} THEN "C17.whenAny" ELSE "ok"
+         [] acomb = "Unwrap" ->
+              IF Resolve(1).st = "ok" THEN "C17.unwrap" ELSE "ok"
+         [] OTHER -> "ok"                             \* Map: statement silent: unjudged
+
+EscUpd(r) ==
+  /\ aesc' = (aesc \/ r.at = "new")
+  /\ UNCHANGED <<acomb, an, adone, acall, aruns>>
+
 \* Reset(comb, n): the trace goes on with a new, independent combinator call (thorough tier
 \* packs several cases into one process); the machine starts afresh.
 ResetCheck(comb, n) == IF comb \notin Combs THEN "harness.comb" ELSE "ok"
 ResetUpd(comb, n) ==
-  /\ acomb' = comb /\ an' = n /\ adone' = <<>> /\ acall' = -1 /\ aruns' = <<>>
+  /\ acomb' = comb /\ an' = n /\ adone' = <<>> /\ acall' = -1 /\ aruns' = <<>> /\ aesc' = FALSE
 
 SetEv(i, k, v) == SetCheck(i, k, v) = "ok" /\ SetUpd(i, k, v)
 New == NewCheck = "ok" /\ NewUpd
 Run(r) == RunCheck(r) = "ok" /\ RunUpd(r)
 Obs(o) == ObsCheck(o) = "ok" /\ ObsUpd(o)
+Esc(r) == EscCheck(r) = "ok" /\ EscUpd(r)
 =============================================================================
